@@ -17,11 +17,20 @@ ASSUMPTIONS = [
 OUTSIDE = ["strings longer than the bound", "non-ASCII code points outside the computed behaviour classes (they behave like the inert representatives: upper() not in the 20 letters, not whitespace)"]
 NMAX = {"quick": 4, "thorough": 5}
 ITEM_TIMEOUT = {"quick": 900, "thorough": 3400}
-NONSTR = [None, 5, 3.5, b"AC", ["A", "C"], ("A",), True, {"A": 1}]
+class _StrLike:
+    """an object that is not a str but prints as a valid sequence"""
+    def __str__(self):
+        return "ACD"
+
+    def __repr__(self):
+        return "<object printing as ACD>"
+
+
+NONSTR = [None, 5, 3.5, b"AC", ["A", "C"], ("A",), True, {"A": 1}, False, float("nan"), float("inf"), _StrLike(), bytearray(b"ACD")]
 
 
 def bounds(tier):
-    return "all strings of length 0..%d over the %d-symbol alphabet (128 ASCII + non-ASCII class representatives); 8 non-str inputs" % (NMAX[tier], len(alphabet()))
+    return "all strings of length 0..%d over the %d-symbol alphabet (128 ASCII + non-ASCII class representatives); 13 non-str inputs" % (NMAX[tier], len(alphabet()))
 
 
 _ALPHA = None
